@@ -255,6 +255,9 @@ func (e *Engine) RunContracts(pc *PropertyCheck, timeout time.Duration, maxPaths
 			}
 			if onlyLoops {
 				pc.Bounded[full+": iterations of its store-range loop"] = e.Env.Cfg.MaxBlockVis - 1
+				if ct.Unroll > 0 {
+					pc.Bounded[full+": iterations of its store-range loop"] = ct.Unroll
+				}
 				fr.Aborts = nil
 			}
 		}
